@@ -408,17 +408,30 @@ func gen(o *kit.Out, r *kit.Rand, tier string) {
 	thorough := tier == "thorough"
 
 	// (i-a) int64 boundary lattice for last / used / maxGas
-	lat := uniq([]int64{minI64, minI64 + 1, -3, -1, 0, 1, 2, 3, 10, 99, 100, 101, 1<<31 - 1, 1 << 32, 3000000000,
-		1 << 53, 1<<62 - 1, 1 << 62, maxI64 / 100, maxI64/100 + 1, maxI64 / 2, maxI64/2 + 1, maxI64 - 2, maxI64 - 1, maxI64})
+	lat := []int64{minI64, -1, 0, 1, 2, 100, 1<<31 - 1, 3000000000, 1 << 62, maxI64/100 + 1, maxI64/2 + 1, maxI64 - 1, maxI64}
+	lr := r.Fork()
+	extra := 2
+	if thorough {
+		lat = append(lat, minI64+1, -3, 3, 10, 99, 101, 1<<32, 1<<53, 1<<62-1, maxI64/100, maxI64/2, maxI64-2)
+		extra = 4
+	}
+	for i := 0; i < extra; i++ { // seed-dependent points next to the boundaries
+		switch lr.Intn(3) {
+		case 0:
+			lat = append(lat, maxI64-int64(lr.Intn(1000000)))
+		case 1:
+			lat = append(lat, (int64(1)<<uint(lr.Range(3, 62)))+int64(lr.Range(-2, 2)))
+		default:
+			lat = append(lat, maxI64/int64(lr.Range(2, 200))+int64(lr.Range(-1, 1)))
+		}
+	}
+	lat = uniq(lat)
 	ratios := []int64{0, 1, 50, 70, 100}
 	e := &emitter{o: o, name: "lattice", per: 64}
 	for _, last := range lat {
 		for _, maxGas := range lat {
 			for _, used := range lat {
 				for _, ratio := range ratios {
-					if !thorough && (ratio == 1 || ratio == 50) && (last+used+maxGas)%3 != 0 {
-						continue
-					}
 					for _, c := range []int64{1, 10} {
 						for _, init := range []int64{0, 1, maxI64} {
 							if !thorough && c == 10 && init != 1 {
@@ -456,9 +469,13 @@ func gen(o *kit.Out, r *kit.Rand, tier string) {
 	}
 	for _, maxGas := range []int64{-1, 0, 1, 2, 100, 143, maxI64} {
 		for _, ratio := range ratios {
+			ps, cs := prices, comps
+			if genTarget(maxGas, ratio) <= 0 { // no positive target: one early return covers all of these
+				ps, cs = []int64{1, 10}, []int64{1, 10}
+			}
 			for _, used := range usedAround(maxGas, ratio) {
-				for _, last := range prices {
-					for _, c := range comps {
+				for _, last := range ps {
+					for _, c := range cs {
 						for _, init := range uniq([]int64{0, 1, 5, last, last + 1}) {
 							if !thorough && init == 5 && c%2 == 0 {
 								continue
